@@ -616,6 +616,8 @@ class Class(metaclass=mixin.MixinMeta):  # pylint: disable=undefined-variable
           baselist.append(base)
       newbases.append(baselist)
 
+    # A class may not be listed twice among the direct bases.
+    mro.CheckDuplicateBases(bases[-1])
     # calc MRO and replace them with original base classes
     return tuple(base2cls[base] for base in mro.MROMerge(newbases))
 
